@@ -90,7 +90,15 @@ def gauss_inverse(M):
     n = M.shape[0]
     one = 1
     A = [[M[i, j] for j in range(n)] + [one if i == j else 0 for j in range(n)] for i in range(n)]
+    def nz(e):
+        v = e.value() if hasattr(e, 'value') else e
+        return v != 0
     for c in range(n):
+        if not nz(A[c][c]):                 # partial pivoting: a structurally or numerically vanishing diagonal entry
+            for r in range(c + 1, n):
+                if nz(A[r][c]):
+                    A[c], A[r] = A[r], A[c]
+                    break
         pv = 1 / A[c][c]
         A[c] = [e * pv for e in A[c]]
         for r in range(n):
